@@ -320,6 +320,11 @@ def check_dst(ctx, F, crate, kind, a, row, inst, v, lab):
             if got != need:
                 bad.append("field `%s` (%d bytes) receives %d bytes" % (f["name"], need, got))
                 break
+            # a field spelled out byte by byte from one conversion (`let [a, b, c, d] = x.to_ne_bytes(); [a, b, c, d, ..]`): all of its
+            # bytes, in order, is the conversion itself
+            if len(group) == need and need > 1 and group[0][0] == "cidx" and group[0][1][0] == "to_bytes" and {"u8": 1, "u16": 2, "u32": 4, "u64": 8, "i32": 4, "i64": 8, "usize": 8}.get(group[0][1][3]) == need and \
+                    all(g_[0] == "cidx" and g_[1] == group[0][1] and g_[2] == i_ and not g_[3] for i_, g_ in enumerate(group)):
+                group = [group[0][1]]
             # provenance
             if f["name"].startswith("_"):
                 if not all(g_ == ("c", 0) or (g_[0] == "aggr" and all(x_ == ("c", 0) for x_ in g_[2])) for g_ in group):
